@@ -454,6 +454,10 @@ func (a *nilAn) guarded(v ssa.Value, fn *ssa.Function, b *ssa.BasicBlock) bool {
 		if !ok || (bo.Op != token.NEQ && bo.Op != token.EQL) {
 			return false
 		}
+		// f(v) compared with a constant, where f answers a known constant for a nil argument
+		if differs, ok := a.answerDiffersFromNil(bo, key); ok {
+			return differs == l.Val
+		}
 		var other ssa.Value
 		if core.IsNilConst(bo.Y) {
 			other = bo.X
@@ -467,6 +471,95 @@ func (a *nilAn) guarded(v ssa.Value, fn *ssa.Function, b *ssa.BasicBlock) bool {
 		}
 		return (bo.Op == token.NEQ) == l.Val
 	})
+}
+
+// answerDiffersFromNil: bo compares the result of a module function applied to the value with
+// canon key `key` with a string constant C, and that function returns the constant K whenever
+// that argument is nil. Returns (d, true) where d is the truth value of bo under which the
+// result certainly differs from K (so the argument is not nil).
+func (a *nilAn) answerDiffersFromNil(bo *ssa.BinOp, key string) (bool, bool) {
+	call, cst := bo.X, bo.Y
+	if _, ok := call.(*ssa.Const); ok {
+		call, cst = cst, call
+	}
+	cs, ok := core.ConstString(cst)
+	if !ok {
+		return false, false
+	}
+	cl, ok := call.(*ssa.Call)
+	if !ok {
+		return false, false
+	}
+	sc := cl.Call.StaticCallee()
+	if sc == nil || !a.c.P.InModule(sc) || len(sc.Blocks) == 0 {
+		return false, false
+	}
+	for i, arg := range cl.Call.Args {
+		if i >= len(sc.Params) || core.Canon(core.Strip(arg)) != key {
+			continue
+		}
+		k, ok := nilAnswer(sc, i)
+		if !ok {
+			continue
+		}
+		if cs == k {
+			// result != K  <=>  bo(NEQ) true / bo(EQL) false
+			return bo.Op == token.NEQ, true
+		}
+		// result == C (C != K)  <=>  bo(EQL) true; bo(NEQ) false
+		return bo.Op == token.EQL, true
+	}
+	return false, false
+}
+
+// nilAnswer: the string constant fn returns when its idx-th parameter is nil, found by
+// following the only feasible branches (failed type assertions, nil tests) from the entry.
+func nilAnswer(fn *ssa.Function, idx int) (string, bool) {
+	p := fn.Params[idx]
+	isP := func(v ssa.Value) bool { return core.Strip(v) == ssa.Value(p) }
+	b := fn.Blocks[0]
+	for steps := 0; steps < 400; steps++ {
+		switch t := b.Instrs[len(b.Instrs)-1].(type) {
+		case *ssa.Jump:
+			b = b.Succs[0]
+		case *ssa.Return:
+			if len(t.Results) != 1 {
+				return "", false
+			}
+			return core.ConstString(t.Results[0])
+		case *ssa.If:
+			switch cnd := t.Cond.(type) {
+			case *ssa.Extract:
+				ta, ok := cnd.Tuple.(*ssa.TypeAssert)
+				if !ok || cnd.Index != 1 || !isP(ta.X) {
+					return "", false
+				}
+				b = b.Succs[1]
+			case *ssa.BinOp:
+				var other ssa.Value
+				if core.IsNilConst(cnd.Y) {
+					other = cnd.X
+				} else if core.IsNilConst(cnd.X) {
+					other = cnd.Y
+				}
+				if other == nil || !isP(other) {
+					return "", false
+				}
+				if cnd.Op == token.EQL {
+					b = b.Succs[0]
+				} else if cnd.Op == token.NEQ {
+					b = b.Succs[1]
+				} else {
+					return "", false
+				}
+			default:
+				return "", false
+			}
+		default:
+			return "", false
+		}
+	}
+	return "", false
 }
 
 // okTrue: the ok component of the comma-ok assertion is true on every path to b.
